@@ -77,6 +77,23 @@ Theorem C14_fin_answered : forall t c g,
   /\ r_flush (handle_conn t c g) = Some (c_key c).
 Proof. exact fin_answered. Qed.
 
+(* ... and in every state in which the client's direction is still open - ESTABLISHED, or
+   FIN-WAIT-1/2 after the listener closed first, whether or not the client has acknowledged the
+   listener's FIN - a FIN, with or without data, draws an acknowledgement of the data and the
+   FIN (mod 2^32), addressed back to the sender *)
+Theorem C14_fin_acknowledged_while_client_open : forall t c g,
+  client_open (c_st c) = true ->
+  hasf (g_flags g) SYN = false -> hasf (g_flags g) RST = false -> hasf (g_flags g) ACK = true ->
+  hasf (g_flags g) FIN = true ->
+  exists o, In o (r_out (handle_conn t c g)) /\ acks_fin c g o.
+Proof. exact fin_acked_while_open. Qed.
+
+Example C14_fin_after_close_example :
+  let c := mkConn 1 FinWait2 100 103 103 4294967295 7 [10;0;0;1]%N 4000 [127;0;0;1]%N 5555 [] false in
+  let g := mkSeg [10;0;0;1]%N [127;0;0;1]%N 4000 5555 4294967295 103 (FIN + ACK + PSH) [1;2;3]%N in
+  map (fun o => (o_flags o, o_ack o)) (r_out (handle_conn [Some c] c g)) = [(ACK, 2); (ACK, 3)].
+Proof. vm_compute. reflexivity. Qed.
+
 (* the receive ring is the first 4096 bytes of the accepted stream; the reported payload is
    the first 2048 bytes of the ring, i.e. a prefix of the client's stream *)
 Theorem C14_ring_tracks_stream : forall ps c tmpl s S0,
@@ -135,3 +152,4 @@ Print Assumptions C14_other_states_untouched.
 Print Assumptions C14_output_independent_of_table.
 Print Assumptions C14_lookup_exact.
 Print Assumptions C14_get_confusable_refuted.
+Print Assumptions C14_fin_acknowledged_while_client_open.
